@@ -12,7 +12,7 @@ cd /verif || exit 1
 if ! git merge --no-edit b-$n >/tmp/merge.log 2>&1; then
   # evidence files are rewritten by every run: on conflict take the builder's, the next check run refreshes them
   for f in $(git diff --name-only --diff-filter=U); do
-    case $f in evidence/*) git checkout --theirs -- $f; git add $f;; *) echo "CONFLICT in $f"; cat /tmp/merge.log; exit 1;; esac
+    case $f in evidence/*|findings/REPORT.md|seeded/REPORT.md|MANIFEST.json|known_findings.json|lean/BppModel.lean|lean/BppProofs.lean|lean/Driver.lean) git checkout --theirs -- $f; git add $f;; *) echo "CONFLICT in $f"; cat /tmp/merge.log; exit 1;; esac
   done
   git commit --no-edit -q
 fi
